@@ -110,6 +110,8 @@ def replay(ctx, fails, rec, val, rnd, fns):
     cls_name = rec.get("cls", "dict")
     if cls_name == "dict" and rnd.random() < 0.3:
         cls_name = rnd.choice(sorted(CLASSES))
+    if keymap and cls_name == "Context":
+        keymap = None          # Context is for JSON-like contexts (its repr sorts the keys)
     cls = CLASSES.get(cls_name, dict)
     args = [cl.as_class(cl.decode(a, val, rnd, keymap=keymap), cls) for a in rec["args"]]
     if keymap and key in keymap:
@@ -118,7 +120,7 @@ def replay(ctx, fails, rec, val, rnd, fns):
     sz = cl.size(rec["args"])
 
     def detail(**kw):
-        d = {"call": name, "level": lv, "key": repr(key), "args": repr(snap) if keymap else snap,
+        d = {"call": name, "level": lv, "key": repr(key), "args": repr(snap) if keymap else snap, "keys": repr(keymap),
              "valuation": cl.val_name(val), "class": cls_name}
         if keymap:
             kw = dict((k, repr(v)) for k, v in kw.items())
@@ -136,7 +138,7 @@ def replay(ctx, fails, rec, val, rnd, fns):
     if op in ("inter", "diff"):
         exp = cl.decode(rec["res"], val, keymap=keymap)
         mm = cl.mismatches(exp, res)
-        if op == "inter" and args and type(res) is not type(args[0]):
+        if op == "inter" and args and res and type(res) is not type(args[0]):
             # "returns a dictionary or its subtype (copied from dicts[0])"
             fails.add("intersection:result-class", sz, detail(observed=type(res).__name__))
         if mm:
